@@ -170,3 +170,8 @@ def obligations(tier, seed):
         items2 = lits + rest
         obs.append(make("multi:%s" % name, items2, refs))
     return obs
+
+
+def gates(tier, seed):
+    from .gates import assembler_gates
+    return assembler_gates(tier, seed)
